@@ -26,6 +26,9 @@ Clauses ==
  \cup (IF C.r2.ok /\ C.r2.v # want THEN {"C09:build-tree-then-call-actions"} ELSE {})
  \cup (IF C.r3.ok /\ C.r3.v # gwant THEN {"C09:glr-tree-then-call-actions"} ELSE {})
  \cup (IF C.r3.ok /\ C.r1.ok /\ Strip(C.r3.v) # Strip(C.r1.v) THEN {"C09:glr-route-differs-from-lr-route"} ELSE {})
+ \* fourth route: build_tree=True with call_actions_during_tree_build=True returns the TREE; calling the actions on the way must not change it
+ \cup (IF C.r4.ok /\ C.r4.tree # C.tree THEN {"C09:tree-built-while-calling-actions-differs-from-the-plain-tree"} ELSE {})
+ \cup (IF ~C.r4.ok THEN {"C09:tree-build-with-actions-raises"} ELSE {})
  \cup (IF ~C.r1.ok THEN {"C09:actions-during-parsing-raises"} ELSE {})
  \cup (IF ~C.r2.ok THEN {"C09:call-actions-raises"} ELSE {})
  \cup (IF C.r3.single /\ ~C.r3.ok THEN {"C09:glr-call-actions-raises"} ELSE {})
